@@ -32,6 +32,8 @@ func (c11) Cases(tier string) int {
 
 func (c11) Thresholds(tier string) map[string]int64 {
 	return map[string]int64{
+		"program-whose-Start-node-is-not-first":             100,
+		"program-with-a-title-defined-twice":                150,
 		"jump-self":                                         100,
 		"jump-out-of-nested-body":                           200,
 		"jump-by-expression":                                200,
@@ -47,15 +49,18 @@ func (c11) Thresholds(tier string) map[string]int64 {
 		"snapshot-compared-after-failed-jump-or-error":      40,
 		"restore-of-hand-built-snapshot-with-chosen-counts": 60,
 		"restore-of-hand-built-snapshot-with-nil-counts":    60,
+		"other-runner-created-and-driven-meanwhile":         1500,
+		"refused-restore-changed-nothing":                   1000,
 	}
 }
 
 func (c11) Rule() string {
-	return "case = one generated jump-graph-heavy program (2-6 nodes, self-loops and cycles bounded by a fuel variable, jumps by name and by expression from top level, option bodies and if bodies, every node tracking: never / always / another value (sometimes, Always, Never, empty ...: counted, only exactly 'never' is not) / unmarked at random) in which every node starts with a line printing visited_count(n) and visited(n) for every node and for a name that is no node; driven along enumerated choice paths; 6% of the jumps name a node that does not exist (the failed jump must not count), and now and then an earlier snapshot of the same run is restored into the running dialogue (counts must then be the snapshot's, and the next jump must count the restored node according to ITS tracking header); one restore in three uses a snapshot built by hand instead (any node, the variables of the last checkpoint, visit counts of the host's choosing or a nil map). Oracle: the printed values and Snapshot().VisitedNodes after every step equal the model's count of completed jump-exits; observed counts never decrease and change only in steps in which the model jumps. Non-trivial: some node is left >=2 times on the path and (a node is untracked or a jump leaves from a nested body). Distinct by hash of scripts+choices."
+	return "case = one generated jump-graph-heavy program (2-6 nodes, self-loops and cycles bounded by a fuel variable, jumps by name and by expression from top level, option bodies and if bodies, every node tracking: never / always / another value (sometimes, Always, Never, empty ...: counted, only exactly 'never' is not) / unmarked at random) in which every node starts with a line printing visited_count(n) and visited(n) for every node and for a name that is no node; driven along enumerated choice paths; 6% of the jumps name a node that does not exist (the failed jump must not count), and now and then an earlier snapshot of the same run is restored into the running dialogue (counts must then be the snapshot's, and the next jump must count the restored node according to ITS tracking header); one restore in three uses a snapshot built by hand instead (any node, the variables of the last checkpoint, visit counts of the host's choosing or a nil map). Now and then another runner over the same script is created and driven while the run is in progress, and a RestoreAt naming an unknown node (with other counts) is attempted: both must change nothing; a snapshot handed to RestoreAt must come back unmodified (entries with count 0 included). Oracle: the printed values and Snapshot().VisitedNodes after every step equal the model's count of completed jump-exits; observed counts never decrease and change only in steps in which the model jumps. Non-trivial: some node is left >=2 times on the path and (a node is untracked or a jump leaves from a nested body). Distinct by hash of scripts+choices."
 }
 
 func (c11) Assumptions() []string {
 	return []string{
+		"one program in five defines a title twice (the library accepts that): the FIRST definition is the node of that name - for jumps, for the tracking header and for RestoreAt alike - and the second is never entered; only the consistency of that choice is judged",
 		"the reference interpreter's jump bookkeeping encodes the property text (count the node being left, never the node entered; tracking: never counts nothing)",
 		"counts are observed through script lines ({visited_count(n)}, {visited(n)}) and through Snapshot().VisitedNodes (entries with count 0 are equivalent to absent entries)",
 	}
@@ -63,6 +68,8 @@ func (c11) Assumptions() []string {
 
 func (p c11) Run(c *core.Ctx) {
 	cfg := gen.DefaultFlow()
+	cfg.StartNotFirst = true
+	cfg.DupTitles = true
 	cfg.VisitLines = true
 	cfg.WJump = 16
 	cfg.WStop = 1
@@ -82,6 +89,7 @@ func (p c11) Run(c *core.Ctx) {
 		}
 	}
 	scripts := hast.Render(prog, hast.L0())
+	shapeFeatures(c, prog)
 	maxPaths := 8
 	if c.Thorough() {
 		maxPaths = 16
@@ -125,6 +133,38 @@ func (p c11) Run(c *core.Ctx) {
 				c.Feature("snapshot-compared-after-failed-jump-or-error")
 				return ""
 			}
+			// counts belong to one runner: another runner over the same script, created and driven while
+			// this one is alive, changes nothing here (the following observations would show it)
+			if c.R.Chance(1, 10) {
+				if other, err, pan := mon.Create(nil, "", scripts); err == nil && pan == "" {
+					for k := c.R.Intn(6); k > 0; k-- {
+						other.Next(0)
+					}
+					c.Feature("other-runner-created-and-driven-meanwhile")
+				}
+			}
+			// a RestoreAt that is refused (unknown node) changes nothing either
+			if c.R.Chance(1, 12) {
+				bad := &ysgo.Snapshot{CurrentNode: "NoSuchNode", VisitedNodes: map[string]int{"NoSuchNode": 3}}
+				for _, n := range prog.Nodes {
+					bad.VisitedNodes[n.Title] = 7
+				}
+				if err := pr.pair.R.DR.RestoreAt(bad); err == nil {
+					return "RestoreAt accepted a snapshot naming an unknown node"
+				}
+				after := pr.pair.R.DR.Snapshot()
+				for k, w := range m.Visits {
+					if after.VisitedNodes[k] != w {
+						return fmt.Sprintf("a refused RestoreAt changed the count of %s to %d (model %d)", k, after.VisitedNodes[k], w)
+					}
+				}
+				for k, g := range after.VisitedNodes {
+					if g != m.Visits[k] {
+						return fmt.Sprintf("a refused RestoreAt changed the count of %s to %d (model %d)", k, g, m.Visits[k])
+					}
+				}
+				c.Feature("refused-restore-changed-nothing")
+			}
 			// counts are "unaffected by anything but jumps and restores": now and then keep a
 			// snapshot, and later restore one into the running dialogue (both sides)
 			if c.R.Chance(1, 6) && len(saves) < 4 {
@@ -156,8 +196,16 @@ func (p c11) Run(c *core.Ctx) {
 					}
 					sv = saved{snap: hand, check: check}
 				}
+				handedOver := mon.CopySnap(sv.snap)
 				if err := pr.pair.R.DR.RestoreAt(sv.snap); err != nil {
 					return "RestoreAt of the runner's own earlier snapshot failed: " + err.Error()
+				}
+				// the snapshot is the host's value: restoring from it does not change it (zero counts included)
+				if len(handedOver.VisitedNodes) != len(sv.snap.VisitedNodes) {
+					return fmt.Sprintf("RestoreAt modified the snapshot it was given: VisitedNodes had %d entries, now %d", len(handedOver.VisitedNodes), len(sv.snap.VisitedNodes))
+				}
+				if d := mon.SnapEq(handedOver, sv.snap); d != "" {
+					return "RestoreAt modified the snapshot it was given: " + d
 				}
 				m.Restore(sv.check)
 				restores++
